@@ -14,8 +14,9 @@ import (
 func init() { modes["oam"] = modeFn{gen: oamGen, replay: oamReplay} }
 
 type oamRun struct {
-	c *ctx
-	o *oam.OAM
+	c  *ctx
+	o  *oam.OAM
+	mc *machine // the OAM sits behind the real Mapper: FE00-FEFF and FF46 accesses go through it
 }
 
 // oamFill: 160 bytes of the LCG x <- (x*1103515245 + 12345) mod 2^31, byte = bits 16..23.
@@ -52,7 +53,7 @@ func (r *oamRun) do(op string) string {
 		res := "ok"
 		switch {
 		case w[0] == "reset" && len(w) == 1:
-			r.o = oam.New()
+			r.newOam()
 		case w[0] == "set" && len(w) == 2 && len(w[1]) == 320:
 			var d [0xa0]byte
 			for i := range d {
@@ -62,9 +63,17 @@ func (r *oamRun) do(op string) string {
 		case w[0] == "fill" && len(w) == 2:
 			r.o.VerifSetOAM(oamFill(uint64(unhex(w[1]))))
 		case w[0] == "r" && len(w) == 2:
-			res = hx2(r.o.Read(uint16(unhex(w[1]))))
+			if a := uint16(unhex(w[1])); a >= 0xfe00 && a <= 0xfeff {
+				res = hx2(r.mc.mapper.Read(a))
+			} else {
+				res = hx2(r.o.Read(a))
+			}
 		case w[0] == "w" && len(w) == 3:
-			r.o.Write(uint16(unhex(w[1])), uint8(unhex(w[2])))
+			if a := uint16(unhex(w[1])); a >= 0xfe00 && a <= 0xfeff {
+				r.mc.mapper.Write(a, uint8(unhex(w[2])))
+			} else {
+				r.o.Write(a, uint8(unhex(w[2])))
+			}
 		case w[0] == "pr" && len(w) == 2:
 			res = hx2(r.o.PPURead(uint16(unhex(w[1]))))
 		case w[0] == "trig" && len(w) == 2:
@@ -76,9 +85,9 @@ func (r *oamRun) do(op string) string {
 		case w[0] == "exit" && len(w) == 1:
 			r.o.ExitMode2()
 		case w[0] == "dma" && len(w) == 2:
-			r.o.WriteDMA(uint8(unhex(w[1])))
+			r.mc.mapper.Write(0xff46, uint8(unhex(w[1])))
 		case w[0] == "rdma" && len(w) == 1:
-			res = hx2(r.o.ReadDMA())
+			res = hx2(r.mc.mapper.Read(0xff46))
 		case w[0] == "tick" && len(w) == 2:
 			seed := uint64(unhex(w[1]))
 			r.o.TickDMA(func(a uint16) uint8 { return oamSrc(seed, a) })
@@ -96,7 +105,7 @@ func (r *oamRun) do(op string) string {
 		return res
 	})
 	if out == "crash" {
-		r.o = oam.New()
+		r.newOam()
 	} else if !bad {
 		out += " ; " + oamFlags(r.o)
 	}
@@ -105,7 +114,9 @@ func (r *oamRun) do(op string) string {
 }
 
 func oamReplay(c *ctx, ops []string) {
-	r := &oamRun{c: c, o: oam.New()}
+	r := &oamRun{c: c}
+	r.newOam()
+	_ = r
 	for _, op := range ops {
 		r.do(op)
 	}
@@ -128,7 +139,9 @@ func oamPageClass(p int) string {
 }
 
 func oamGen(c *ctx) {
-	r := &oamRun{c: c, o: oam.New()}
+	r := &oamRun{c: c}
+	r.newOam()
+	_ = r
 	seed := func() string { return fmt.Sprintf("%x", c.rng.next()&0xffffff) }
 	oamAddr := func() int { return 0xfe00 + c.rng.intn(0x100) }
 
@@ -364,4 +377,12 @@ func oamGen(c *ctx) {
 	c.notes["restart_scenarios_per_page_00_f1"] = nRestart
 	c.notes["bug_patterns"] = fmt.Sprintf("21 ppu positions (fresh + rows 0..19) x %d trigger sequences x (%d open + closed + dma)", len(combos), contents)
 	c.notes["input_distribution"] = "A1: 256 pages x 162 ticks with a CPU read before every tick; A2: restarts; B: OAM-bug patterns; C: random API sequences (2% out-of-contract addresses)"
+}
+
+// newOam builds a whole machine and uses its OAM; the LCD is switched off and the OAM put back to its
+// fresh state (no OAM-bug window) so that it behaves like oam.New()
+func (r *oamRun) newOam() {
+	r.mc = newMachine(make([]byte, 0x8000), false)
+	r.o = r.mc.oam
+	r.o.ExitMode2()
 }
